@@ -307,7 +307,7 @@ def check(prop, tier, seed):
         violation = True
         replay = os.path.join(ROOT, "replays", "%s-seed%d-input.json" % (prop, seed))
         json.dump(dict(property=prop, seed=seed, tier=tier, kind="failing-input", failures=new_fail[:10],
-                       ops=[f.get("input") for f in new_fail[:10]],
+                       ops=[(f.get("input") if re.match(r"^(c\d\d_|varint_|net_|addrtype|amt_)", f.get("input") or "") else f.get("last_op")) for f in new_fail[:10]],
                        proof_status=dict(ok=A["ok"], problems=A["problems"], failing=A.get("failing", [])),
                        correspondence_mismatches=b_mis[:5]), open(replay, "w"), indent=1)
         print("VIOLATION property=%s replay=%s" % (prop, replay))
